@@ -71,6 +71,16 @@ CLAIMED = {
   "For every enumerated message: the encoding parses strictly, its element tree equals the reference projection of the populated fields (pinned tags, pinned version table), decoding succeeds with identical payload types, the decoded value projects to the same tree, and re-encoding is byte-identical.",
   "Trusted: refttlv, msg.Projector (300 lines, mirrors the naming convention field name -> tag through the pinned registry), pinned tables. Values outside the alphabets are represented by boundary classes.",
   "DESIGN.md §3 C01"),
+ "C04": ("exploration", "enum+ref",
+  "bounded exhaustive enumeration: the C01 message space x {XML, JSON}; exhaustive one-item sweeps (Unicode scalar values, all enumeration values, mask bit patterns, integer/date boundaries); all 5.3k OASIS vector messages decoded, re-encoded and compared as trees by an independent XML/JSON reader",
+  "Every produced document must be accepted by an independent strict parser (encoding/xml, encoding/json + own lexers, pinned names), carry the same element tree as the binary encoding, and decode to a message whose binary encoding is byte-identical; every vector of implemented operations must re-encode to the same element tree.",
+  "Trusted: package reftext (450 lines), pinned registry, Go stdlib parsers. Lexical normalisation only (hex case, numeric vs named enumerations, mask flag order, dates as instants). TZ=UTC.",
+  "DESIGN.md §3 C04"),
+ "C05": ("exploration", "enum+ref",
+  "exhaustive enumeration of the finite product (61 version-dependent fields x 5 versions x populated/unpopulated x every occurrence in the enumerated messages), encode side judged by the independent parser and projection, decode side fed by the independent generator",
+  "For every occurrence the element is present iff populated and version >= introduced (pinned table); the same message with all later-version elements on the wire and the header at V decodes to a value that still carries them. The evidence lists occurrences per field and version and fails to be exhaustive if a cell was never exercised.",
+  "Trusted: pinned/version_fields.json (from the KMIP 1.1-1.4 specifications), refttlv, msg.Projector.",
+  "DESIGN.md §3 C05"),
 }
 NOT_YET = "check not built yet in this session (planned, see DESIGN.md §3)"
 NA = {}
